@@ -46,6 +46,30 @@ Theorem C16_partition : forall m p, audio_is_partition_head p = true /\ audio_is
 Proof. intros; split; reflexivity. Qed.
 Print Assumptions C16_partition.
 
+(* the number of fragments: one (empty) fragment for an empty input, ceil(len / mtu) otherwise - no empty
+   fragment appended at exact multiples of the MTU, none merged or lost; G722 runs the same code *)
+Theorem C16_g711_count : forall mtu p, 1 <= mtu ->
+  exists fs, g711_payload mtu (Some p) = Ok (map Own fs) /\
+    zlen fs = if zlen p =? 0 then 1 else (zlen p + mtu - 1) / mtu.
+Proof. exact g711_count. Qed.
+Print Assumptions C16_g711_count.
+
+Theorem C16_g722_count : forall mtu p, 1 <= mtu ->
+  exists fs, g722_payload mtu (Some p) = Ok (map Own fs) /\
+    zlen fs = if zlen p =? 0 then 1 else (zlen p + mtu - 1) / mtu.
+Proof. exact g711_count. Qed.
+Print Assumptions C16_g722_count.
+
+(* Opus payloader then OpusPacket.Unmarshal: the single fragment, whatever the MTU, decodes to the input *)
+Theorem C16_opus_end_to_end : forall mtu p, p <> [] ->
+  exists f r, opus_payload mtu (Some p) = Ok [Own f] /\ opus_unmarshal (Some f) = Ok r /\ resolve (fun _ => f) r = p.
+Proof. exact opus_end_to_end. Qed.
+Print Assumptions C16_opus_end_to_end.
+
+Example C16_count_at_exact_multiple :
+  g711_payload 3 (Some [1;2;3;4;5;6]) = Ok [Own [1;2;3]; Own [4;5;6]] /\ (6 + 3 - 1) / 3 = 2.
+Proof. split; vm_compute; reflexivity. Qed.
+
 (* the premises are satisfiable on a non-trivial input: 7 bytes at MTU 3 *)
 Example C16_nonvacuous :
   g711_payload 3 (Some [1;2;3;4;5;6;7]) = Ok [Own [1;2;3]; Own [4;5;6]; Own [7]].
